@@ -90,6 +90,16 @@ theorem write_stores (r : Req) (m : Store) (h : r.kind = .write) :
   have : r.addr + j - r.addr = j := by omega
   rw [this, byte_mod _ _ _ hj]
 
+/-- the memory may have any size (power of two or not): while every request stays inside `[0, size)` — the real
+byte array raises IndexError otherwise — responses and the first `size` bytes are determined by the first `size` bytes
+of the initial image alone, addresses select bytes directly (no aliasing of in-range addresses: `image_latest` holds
+cell by cell), and nothing at or beyond `size` is ever stored: an array of exactly `size` bytes is the whole state -/
+theorem bounded_store (size : Nat) (l : List Req) (m m' : Store)
+    (hl : ∀ r ∈ l, r.addr + nbytes r.nb r.len ≤ size) (h : ∀ b, b < size → m b = m' b) :
+    (seqSpec l m).1 = (seqSpec l m').1 ∧ (∀ b, b < size → (seqSpec l m).2 b = (seqSpec l m').2 b) ∧
+    (∀ b, size ≤ b → (seqSpec l m).2 b = m b) :=
+  seqSpec_in_range size l m m' hl h
+
 /-! ## atomic operations -/
 
 /-- an AMO returns the old value and leaves `op(old, data) mod 2^(8k)` in memory, touching nothing
